@@ -397,6 +397,10 @@ def unit_checks(ctx, rng):
                 v = v + 0.3 * (i + 1) * base[i] ** 2 + 0.05 * base[i] ** 3
             return v + 0.0 * np.asarray(T)
 
+        def derivT(self, fields, T):
+            # any relabelling-covariant scalar of the field point will do
+            return -0.01 * T * (1.0 + 0.001 * self.evaluate(fields, T))
+
     for it in range(ctx.n(25, 300)):
         n = rng.choice([1, 2, 2, 3, 3, 4])
         fs = rand_fields(rng, n)
@@ -453,6 +457,30 @@ def unit_checks(ctx, rng):
         class Zero:
             def evaluate(self, fields, T):
                 return 0.0 * Fields(fields).getField(0)
+
+            def derivT(self, fields, T):
+                return 0.0 * Fields(fields).getField(0)
+        # --- temperatureProfileEqLHS at one grid point (energy-momentum conservation)
+        from WallGo.fields import FieldPoint
+        k = rng.randrange(len(z))
+        s1v, s2v, Tv = float(dy(rng, 1, 9, 8)), float(dy(rng, -4, 4, 8)), float(dy(rng, 1, 4, 8))
+        l1 = EOM.temperatureProfileEqLHS(eom_stub(n, None, Quartic(n, co)),
+                                         P.getFieldPoint(k), dP.getFieldPoint(k), Tv, s1v, s2v)
+        l2 = EOM.temperatureProfileEqLHS(eom_stub(n, None, Quartic(n, co, perm, sign, shift)),
+                                         P2.getFieldPoint(k), dP2.getFieldPoint(k), Tv, s1v,
+                                         s2v)
+        ctx.count("unit_temperatureLHS", case, bucket=bucket)
+        if abs(l1 - l2) > 1e-9 * (1 + abs(l1)):
+            fail_once(ctx, "EOM.temperatureProfileEqLHS of the relabelled model/point = %.12g, "
+                      "of the original = %.12g" % (l2, l1),
+                      dict(kind="temperatureLHS", case=case, z=[float(z[k])], T=Tv, s1=s1v,
+                           s2=s2v, quartic={str(q): v for q, v in co.items()},
+                           lhs=[l1, l2]), key="unit:temperatureLHS")
+        if it < ctx.n(4, 16):
+            l0 = EOM.temperatureProfileEqLHS(eom_stub(n, None, Zero()), P.getFieldPoint(k),
+                                             dP.getFieldPoint(k), Tv, s1v, s2v)
+            rows.append(("lhs", [Fraction(float(x)) for x in dP.getFieldPoint(k)],
+                         Fraction(Tv), Fraction(s1v), Fraction(s2v), l0))
         k1 = EOM.action(eom_stub(n, grid, Zero()), wallparams(fs), lo, hi, T, D0)
         kref = sum((f[1] - f[0]) ** 2 / (6 * f[2]) for f in fs)
         if abs(k1 - float(kref)) > 1e-10 * (1 + abs(k1)):
@@ -563,7 +591,7 @@ Local Open Scope R_scope.
 Ltac flat a := lazymatch a with context [Rmax _ _] => fail | context [Rmin _ _] => fail
   | _ => idtac end.
 Ltac dec := first [lra | interval with (i_prec 80)].
-Ltac ev := cbv beta iota delta [wallProfile_ret0 wallProfile_ret1 action_ret updateGrid_arg0
+Ltac ev := cbv beta iota delta [wallProfile_ret0 wallProfile_ret1 action_ret temperatureLHS updateGrid_arg0
   updateGrid_arg1 updateGrid_arg2 updateGrid_arg3 sumR maxR minR map vevLow vevHigh width offset
   meanFreePathScale includeOffEq smoothing ratioPointsWall tanh sinh cosh];
   repeat match goal with
@@ -592,6 +620,10 @@ Ltac ev := cbv beta iota delta [wallProfile_ret0 wallProfile_ret1 action_ret upd
         elif r[0] == "kinetic":
             _, fs, k = r
             close("action_ret 0 [%s]" % "; ".join(wf(f) for f in fs), k)
+        elif r[0] == "lhs":
+            _, dP, T, s1, s2, y = r
+            close("temperatureLHS [%s] %s 0 0 %s %s" % ("; ".join(R(x) for x in dP), R(T),
+                                                         R(s1), R(s2)), y)
         elif r[0] == "grid":
             _, fs, vmid, mfp, off, out = r
             env = "(mk_genv %s %s %s %s)" % (R(Fraction(mfp)), R(Fraction(off)),
@@ -622,8 +654,12 @@ Ltac ev := cbv beta iota delta [wallProfile_ret0 wallProfile_ret1 action_ret upd
 
 def transformations(ctx):
     """(model, perm, sign, shift, label)"""
+    # partial reflections (an ODD number of fields reflected) are what exposes cross terms
+    # phi_i' phi_j' / phi_i phi_j; both single-field reflections are in the quick tier, one
+    # of them combined with the translation
     quick = [("xsm2", (1, 0), (1, 1), (0.0, 0.0), "permutation"),
-             ("xsm2", (0, 1), (1, 1), (60.0, -45.0), "translation"),
+             ("xsm2", (0, 1), (-1, 1), (60.0, -45.0), "translation+reflection"),
+             ("xsm2", (0, 1), (1, -1), (0.0, 0.0), "reflection"),
              # three fields with the light follower field listed first: the recorded finding
              # "e2e:xsm3:pinned=2" (result depends on which wall is pinned), replayed on every
              # run so that it is noticed when it goes away or changes
@@ -631,8 +667,9 @@ def transformations(ctx):
     if ctx.quick:
         return quick
     out = list(quick)
+    out.append(("xsm2", (0, 1), (1, 1), (60.0, -45.0), "translation"))
     out.append(("xsm2", (0, 1), (-1, 1), (0.0, 0.0), "reflection"))
-    out.append(("xsm2", (0, 1), (1, -1), (0.0, 0.0), "reflection"))
+    out.append(("xsm2", (0, 1), (-1, -1), (0.0, 0.0), "reflection"))
     rng = ctx.rng
     for perm in ((0, 1), (1, 0)):
         for sign in itertools.product((1, -1), repeat=2):
@@ -735,7 +772,9 @@ def run(ctx):
         "xsm2 = xSM-like two-field high-T potential (phases (0,s) and (v,0), per-field FD "
         "scales 50/30 permuted along), xsm3 = the same plus a heavy field following "
         "0.3 h^2/246 (third wall, same free energies); Tn=100, equilibrium solveWall, default "
-        "config. quick = xsm2 base + swap + translation (60,-45) and the recorded xsm3 finding "
+        "config (energy-momentum conservation on). quick = xsm2 base + swap + reflection of the "
+        "first field with translation (60,-45) + reflection of the second field, and the "
+        "recorded xsm3 finding "
         "(chi listed first); thorough adds both xsm2 orderings x all four sign patterns with "
         "random integer shifts in [-120,120]^2, pure reflections, and the four xsm3 orderings "
         "that pin h or s with random signs/shifts. Tolerances when another field is pinned: vw "
